@@ -13,7 +13,11 @@ the code performs, in the code's order; `restart` reloads the in-memory part fro
 Whether `forget_channel` persists the tracker entry (which carries the monitor's forget flag, F12) is
 read from the source by the translator (`Gen.Chain.forgetPersistsTracker`).
 
-Not modelled: `policy.max_channels()`, validation of the channel setup (the harness uses valid
+`find_or_create_channel`'s capacity guard (`channels.len() >= policy.max_channels()`, checked after the
+high-water mark and *before* the slot lookup, so that at capacity even an existing id is refused) is modelled with
+the configured limit `Node.maxChannels` (default: `MAX_CHANNELS` of `policy/mod.rs`, read by the translator).
+
+Not modelled: validation of the channel setup (the harness uses valid
 setups), channels with a second (permanent) id, tracker-level header/proof validation (C13).
 -/
 namespace VlsModel.Prune
@@ -37,6 +41,7 @@ structure Node where
   height : Nat                       -- tracker height
   listeners : List (Nat × Listener)  -- tracker listeners (monitor state + ListenSlot)
   regtest : Bool
+  maxChannels : Nat                  -- `policy.max_channels()`: configuration, not persisted, unchanged by a restart
   store : Store
   deriving Repr, DecidableEq, Inhabited
 
@@ -44,8 +49,8 @@ inductive Out where
   | ok | err | panic
   deriving Repr, DecidableEq, Inhabited
 
-def Node.init (height : Nat) (regtest : Bool) : Node :=
-  { channels := [], hwm := 0, height, listeners := [], regtest,
+def Node.init (height : Nat) (regtest : Bool) (maxChannels : Nat := maxChannelsDefault) : Node :=
+  { channels := [], hwm := 0, height, listeners := [], regtest, maxChannels,
     store := { channels := [], hwm := 0, height, listeners := [] } }
 
 /-! association-list helpers -/
@@ -67,6 +72,7 @@ def update {β} (k : Nat) (f : β → β) : List (Nat × β) → List (Nat × β
 /-- `Node::new_channel(dbid, …)` -/
 def newChannel (n : Node) (d : Nat) : Node × Out :=
   if n.hwm ≥ d then (n, .err)                          -- policy-channel-original-channel-id-reuse
+  else if n.channels.length ≥ n.maxChannels then (n, .err)   -- "too many channels" (before the slot lookup)
   else match lookup d n.channels with
     | some _ => (n, .ok)                               -- existing slot returned
     | none =>
